@@ -21,7 +21,7 @@ import sys
 import tempfile
 
 from mc import driver as D, corpus
-from mc.props.c09_se import run_se  # noqa: F401  (runner of the schedule-enumeration phase)
+from mc.props.c09_se import run_se, run_inventory  # noqa: F401  (runner of the schedule-enumeration phase)
 
 PROP = 'C09'
 RULE = ('ES: BFS over Parser façade calls (set path W1/W2/W3, set entry cell fresh/reused/None, enable/disable safety, get, '
